@@ -521,23 +521,151 @@ func c05R2(c *Ctx, p *Prog) {
 		bySide[g.Side] = g
 	}
 	short, _ := p.pkgConstInt("chess.Short")
-	bbFrom := func(e ast.Expr) (uint64, bool) {
-		call, ok := ast.Unparen(e).(*ast.CallExpr)
+	// single-definition locals: object -> defining expression
+	defs := map[types.Object]ast.Expr{}
+	multi := map[types.Object]bool{}
+	ast.Inspect(fd.Body, func(n ast.Node) bool {
+		as, ok := n.(*ast.AssignStmt)
 		if !ok {
+			return true
+		}
+		for i, l := range as.Lhs {
+			id, ok := l.(*ast.Ident)
+			if !ok {
+				continue
+			}
+			obj := info.ObjectOf(id)
+			if obj == nil {
+				continue
+			}
+			if as.Tok == token.DEFINE && len(as.Lhs) == len(as.Rhs) {
+				if _, seen := defs[obj]; seen {
+					multi[obj] = true
+				}
+				defs[obj] = as.Rhs[i]
+			} else {
+				multi[obj] = true
+			}
+		}
+		return true
+	})
+	defOf := func(e ast.Expr) ast.Expr {
+		id, ok := ast.Unparen(e).(*ast.Ident)
+		if !ok {
+			return nil
+		}
+		obj := info.ObjectOf(id)
+		if obj == nil || multi[obj] {
+			return nil
+		}
+		return defs[obj]
+	}
+	isAcc := func(e ast.Expr, acc string) bool {
+		for i := 0; i < 4 && e != nil; i++ {
+			if call, ok := ast.Unparen(e).(*ast.CallExpr); ok {
+				if isConversion(info, call) && len(call.Args) == 1 {
+					e = call.Args[0]
+					continue
+				}
+				if cal := astCallee(info, call); cal != nil && objName(cal) == "move.(Move)."+acc {
+					return true
+				}
+				return false
+			}
+			e = defOf(e)
+		}
+		return false
+	}
+	isField := func(e ast.Expr, name string) bool {
+		sel, ok := ast.Unparen(e).(*ast.SelectorExpr)
+		if !ok {
+			return false
+		}
+		if s := info.Selections[sel]; s != nil {
+			if v, ok := s.Obj().(*types.Var); ok && v.IsField() && v.Name() == name {
+				return true
+			}
+		}
+		return false
+	}
+	var isOcc func(e ast.Expr, d int) bool
+	isOcc = func(e ast.Expr, d int) bool {
+		if d > 4 || e == nil {
+			return false
+		}
+		e = ast.Unparen(e)
+		if be, ok := e.(*ast.BinaryExpr); ok && be.Op == token.OR {
+			colours := func(x ast.Expr) bool {
+				ix, ok := ast.Unparen(x).(*ast.IndexExpr)
+				if !ok || !isField(ix.X, "Colors") {
+					return false
+				}
+				_, isC := isColorConst(info, ix.Index)
+				return isC
+			}
+			return colours(be.X) && colours(be.Y)
+		}
+		return isOcc(defOf(e), d+1)
+	}
+	// bitboard evaluator within a castling case (from/to constants known)
+	var evalBB func(e ast.Expr, from, to int64, d int) (uint64, bool)
+	evalBB = func(e ast.Expr, from, to int64, d int) (uint64, bool) {
+		if d > 6 || e == nil {
 			return 0, false
 		}
-		if cal := astCallee(info, call); cal == nil || objName(cal) != "chess.BitBoardFromSquares" {
-			return 0, false
+		e = ast.Unparen(e)
+		if u, ok := constUint(info, e); ok {
+			return u, true
 		}
-		var m uint64
-		for _, a := range call.Args {
-			v, ok := constInt(info, a)
-			if !ok || v < 0 || v > 63 {
+		switch x := e.(type) {
+		case *ast.CallExpr:
+			if isConversion(info, x) && len(x.Args) == 1 {
+				return evalBB(x.Args[0], from, to, d+1)
+			}
+			if cal := astCallee(info, x); cal != nil && objName(cal) == "chess.BitBoardFromSquares" {
+				var m uint64
+				for _, a := range x.Args {
+					v, ok := constInt(info, a)
+					if !ok || v < 0 || v > 63 {
+						return 0, false
+					}
+					m |= 1 << uint(v)
+				}
+				return m, true
+			}
+			return 0, false
+		case *ast.BinaryExpr:
+			if x.Op == token.SHL {
+				if one, ok := evalBB(x.X, from, to, d+1); ok && one == 1 {
+					if isAcc(x.Y, "From") {
+						return 1 << uint(from), true
+					}
+					if isAcc(x.Y, "To") {
+						return 1 << uint(to), true
+					}
+				}
 				return 0, false
 			}
-			m |= 1 << uint(v)
+			a, ok1 := evalBB(x.X, from, to, d+1)
+			b, ok2 := evalBB(x.Y, from, to, d+1)
+			if !ok1 || !ok2 {
+				return 0, false
+			}
+			switch x.Op {
+			case token.OR:
+				return a | b, true
+			case token.AND:
+				return a & b, true
+			case token.AND_NOT:
+				return a &^ b, true
+			case token.XOR:
+				return a ^ b, true
+			}
+			return 0, false
+		case *ast.Ident:
+			return evalBB(defOf(x), from, to, d+1)
 		}
-		return m, true
+		return 0, false
 	}
 	n := 0
 	ast.Inspect(fd.Body, func(nd ast.Node) bool {
@@ -545,7 +673,7 @@ func c05R2(c *Ctx, p *Prog) {
 		if !ok || len(cc.List) != 1 {
 			return true
 		}
-		// case from == X && to == Y && b.STM == C
+		// case <from> == X && <to> == Y && b.STM == C
 		var conj []ast.Expr
 		flatten(cc.List[0], token.LAND, &conj)
 		var from, to, col int64 = -1, -1, -1
@@ -554,27 +682,26 @@ func c05R2(c *Ctx, p *Prog) {
 			if !ok || be.Op != token.EQL {
 				continue
 			}
-			k, isc := constInt(info, be.Y)
+			x, y := be.X, be.Y
+			k, isc := constInt(info, y)
+			if !isc {
+				if k2, ok := constInt(info, x); ok {
+					x, k, isc = y, k2, true
+				}
+			}
 			if !isc {
 				continue
 			}
-			switch x := ast.Unparen(be.X).(type) {
-			case *ast.Ident:
-				if x.Name == "from" {
-					from = k
-				} else if x.Name == "to" {
-					to = k
-				}
-			case *ast.SelectorExpr:
-				if x.Sel.Name == "STM" {
-					col = k
-				}
+			switch {
+			case isAcc(x, "From"):
+				from = k
+			case isAcc(x, "To"):
+				to = k
+			case isField(x, "STM"):
+				col = k
 			}
 		}
-		if from < 0 || to < 0 {
-			return true
-		}
-		if to-from != 2 && from-to != 2 {
+		if from < 0 || to < 0 || (to-from != 2 && from-to != 2) {
 			return true
 		}
 		n++
@@ -594,38 +721,42 @@ func c05R2(c *Ctx, p *Prog) {
 			c.Undec(rule, name+"#generator", cc.Pos(), "no generator castling method for side %d found", side)
 			return true
 		}
-		// body: if Castles&R == 0 || BB(..)&occ != 0 || IsAttacked(.., BB(..)) { return false }
 		var rights int64 = -1
 		var empty, unatt uint64
-		var haveEmpty, haveUnatt bool
+		var haveEmpty, haveUnatt, undecEmpty, undecUnatt bool
 		for _, s := range cc.Body {
 			ast.Inspect(s, func(x ast.Node) bool {
 				switch y := x.(type) {
 				case *ast.BinaryExpr:
 					if y.Op == token.AND {
 						for _, pr := range [][2]ast.Expr{{y.X, y.Y}, {y.Y, y.X}} {
-							if sel, ok := ast.Unparen(pr[0]).(*ast.SelectorExpr); ok && sel.Sel.Name == "Castles" {
+							if isField(pr[0], "Castles") {
 								if k, ok := constInt(info, pr[1]); ok {
 									rights = k
 								}
 							}
-							if m, ok := bbFrom(pr[0]); ok {
-								if id, ok := ast.Unparen(pr[1]).(*ast.Ident); ok && id.Name == "occ" {
+							if isOcc(pr[1], 0) {
+								if m, ok := evalBB(pr[0], from, to, 0); ok {
 									empty, haveEmpty = m, true
+								} else {
+									undecEmpty = true
 								}
 							}
 						}
 					}
 				case *ast.CallExpr:
 					if cal := astCallee(info, y); cal != nil && objName(cal) == "board.(*Board).IsAttacked" && len(y.Args) == 3 {
-						if m, ok := bbFrom(y.Args[2]); ok {
+						if m, ok := evalBB(y.Args[2], from, to, 0); ok {
 							unatt, haveUnatt = m, true
+						} else {
+							undecUnatt = true
 						}
-						// attacker colour is the opponent
 						okBy := false
 						if call, ok := ast.Unparen(y.Args[0]).(*ast.CallExpr); ok {
-							if cal := astCallee(info, call); cal != nil && objName(cal) == "chess.(Color).Flip" {
-								okBy = true
+							if cal := astCallee(info, call); cal != nil && objName(cal) == "chess.(Color).Flip" && len(call.Args) == 0 {
+								if sel, ok := call.Fun.(*ast.SelectorExpr); ok && isField(sel.X, "STM") {
+									okBy = true
+								}
 							}
 						}
 						c.Check(okBy, rule, name+"#attacked-by-opponent", y.Pos(), "the king's path is tested against attacks by STM.Flip()")
@@ -645,10 +776,23 @@ func c05R2(c *Ctx, p *Prog) {
 		case "mask>>1":
 			gEmpty = gm >> 1
 		}
-		c.Check(haveEmpty && empty == gEmpty, rule, name+"#empty", cc.Pos(), "acceptor requires %#x empty; generator requires %#x", empty, gEmpty)
-		c.Check(haveUnatt && unatt == gm, rule, name+"#unattacked", cc.Pos(), "acceptor requires %#x unattacked; generator requires %#x", unatt, gm)
+		switch {
+		case haveEmpty:
+			c.Check(empty == gEmpty, rule, name+"#empty", cc.Pos(), "acceptor requires %#x empty; generator requires %#x", empty, gEmpty)
+		case undecEmpty:
+			c.Undec(rule, name+"#empty", cc.Pos(), "the acceptor's must-be-empty set is not a closed bitboard expression the rule can evaluate")
+		default:
+			c.Fail(rule, name+"#empty", cc.Pos(), "the acceptor has no emptiness test against the occupancy; generator requires %#x empty", gEmpty)
+		}
+		switch {
+		case haveUnatt:
+			c.Check(unatt == gm, rule, name+"#unattacked", cc.Pos(), "acceptor requires %#x unattacked; generator requires %#x", unatt, gm)
+		case undecUnatt:
+			c.Undec(rule, name+"#unattacked", cc.Pos(), "the acceptor's must-be-unattacked set is not a closed bitboard expression the rule can evaluate")
+		default:
+			c.Fail(rule, name+"#unattacked", cc.Pos(), "the acceptor has no IsAttacked test; generator requires %#x unattacked", gm)
+		}
 		c.Check(uint(from) == home && to-from == g.Delta, rule, name+"#squares", cc.Pos(), "acceptor's king move %s%s equals the generator's home%+d", sqName(from), sqName(to), g.Delta)
-		_ = bits.Len
 		return true
 	})
 	c.Floor(rule, n, 4, "castling cases in IsPseudoLegal")
